@@ -366,6 +366,7 @@ def cropOp (P : Crop.Perms) (kind : Value.Val) (k : Nat) (s : Crop.St (List Sym)
     (match s.dir with
      | some d => { s with dir := some { d with results := Crop.erase d.results (getNat op "id") } }
      | none => s, Json.null)
+  | "emptydir" => ((match s.dir with | none => { s with dir := some {} } | some _ => s), Json.null)   -- directory skeleton, no info file
   | "strandtmp" => (s, Json.null)      -- a killed writer's private temporary: not a crop file, changes nothing
   | "corrupt" =>
     (match s.dir with
